@@ -938,6 +938,16 @@ class CallMixin:
             if isinstance(cur, VObj):
                 raise Unsupported(f"modifies {m}: field holds an object; name its fields")
             obj.fields[fld] = self.havoc_like(cur, p, name=fld)
+            # ghost trace of a local object's field across calls: <local>_<field>_<k> is its value after the k-th call that
+            # may modify it (lets postconditions speak about intermediate states step by step instead of by nested terms)
+            if not p.spec and len(self.cur_fi_stack) == 1:
+                for lname, lv in p.env.items():
+                    if lv is obj and lname.isidentifier():
+                        k = 1
+                        base = f"{lname}_{fld.lstrip('_')}"
+                        while f"{base}_{k}" in p.ghost:
+                            k += 1
+                        p.ghost[f"{base}_{k}"] = obj.fields[fld]
 
 
 def val_sort(eng, v):
